@@ -773,3 +773,44 @@ func C03MapCompositeKeys() {
 	}
 	sym.Reach("composite-keys-done")
 }
+
+type zzTwoLists struct {
+	A, B []int16
+	M    map[string]int32
+	N    map[string]int32
+}
+
+// C03SharedParts: a value whose parts are shared (the same list used twice in a list of lists, two members
+// holding the same list or the same map, two lists that are prefixes of one array): sharing is not part of
+// the value — it is encoded like the value with equal, distinct parts.
+func C03SharedParts() {
+	x, y := sym.I16("x"), sym.I16("y")
+	row := []int16{x, y}
+	switch sym.Choose("shape", 3) {
+	case 0:
+		v := [][]int16{row, row}
+		spec := zzCat(zzLE32(2), zzLE32(2), zzLE16(uint16(x)), zzLE16(uint16(y)), zzLE32(2), zzLE16(uint16(x)), zzLE16(uint16(y)))
+		var back [][]int16
+		zzCheck("same-list-twice", "[[w]]", v, spec, &back, func() bool {
+			return len(back) == 2 && len(back[0]) == 2 && len(back[1]) == 2 && sym.And(back[0][0] == x, back[1][1] == y)
+		})
+	case 1:
+		m := map[string]int32{"k": sym.I32("m")}
+		v := zzTwoLists{A: row, B: row, M: m, N: m}
+		one := zzCat(zzLE32(2), zzLE16(uint16(x)), zzLE16(uint16(y)))
+		mp := zzCat(zzLE32(1), zzStr("k"), zzLE32(uint32(m["k"])))
+		spec := zzCat(one, one, mp, mp)
+		var back zzTwoLists
+		zzCheck("two-members-one-list", "([w][w]{si}{si})", v, spec, &back, func() bool {
+			return len(back.A) == 2 && len(back.B) == 2 && len(back.M) == 1 && len(back.N) == 1 && sym.And(back.B[1] == y, back.N["k"] == m["k"])
+		})
+	default:
+		v := [][]int16{row[:1], row[:2]}
+		spec := zzCat(zzLE32(2), zzLE32(1), zzLE16(uint16(x)), zzLE32(2), zzLE16(uint16(x)), zzLE16(uint16(y)))
+		var back [][]int16
+		zzCheck("two-prefixes-of-one-array", "[[w]]", v, spec, &back, func() bool {
+			return len(back) == 2 && len(back[0]) == 1 && len(back[1]) == 2 && sym.And(back[0][0] == x, back[1][1] == y)
+		})
+	}
+	sym.Reach("shared-parts-done")
+}
